@@ -281,14 +281,15 @@ class Config:
         """
         Return the config fields and values in an ``OrderedDict``.
 
-        Values are cached in `self._dict` unless refreshed.
+        Values are collected from the attributes on every call so that a value
+        assigned to a field (``config.tf = 10``) is not hidden by an earlier
+        call. ``refresh`` is kept for compatibility.
         """
-        if refresh is True or len(self._dict) == 0:
-            out = []
-            for key, val in self.__dict__.items():
-                if not key.startswith('_'):
-                    out.append((key, val))
-            self._dict = OrderedDict(out)
+        out = []
+        for key, val in self.__dict__.items():
+            if not key.startswith('_'):
+                out.append((key, val))
+        self._dict = OrderedDict(out)
 
         return self._dict
 
